@@ -9,6 +9,12 @@
 //	        the first m recorded writes", the real chain initialisation is run (restart), observables are
 //	        read -> (a) invariant + head-on-path checks, (b) one Cr step for the model; the repair
 //	        (ensureChainConsistency) is itself recorded and cut after every one of its writes.
+//	pass G  the first start: insertGenesisBlock runs with every store write recorded; every prefix that
+//	        contains the head record is replayed (restart, invariant, Gn step for the model).
+//
+// Blocks carry transactions of a type without executor, so that MarkExecuted / UnMarkExecuted and the
+// executed-check of verifyBlock are part of every pass: the pool's executed store is recorded and
+// replayed like the index stores, the pool clause is evaluated at every point.
 package main
 
 import (
